@@ -3,7 +3,7 @@
 #   demo passes on the pinned tree, fails with the change; repository test suite still passes with the change.
 # Works in a scratch worktree of /repo at the pinned commit, removed afterwards. Result: /tmp/seed_out/<PROP>/verify_<X>.txt
 P=$1; X=$2; BASE=${3:-4f71e86}
-SRC=/tmp/seed_out/$P; WT=/tmp/vs_${P}_$X; OUT=$SRC/verify_$X.txt
+SRC=${SEEDROOT:-/tmp/seed_out}/$P; WT=/tmp/vs_${P}_$X; OUT=$SRC/verify_$X.txt
 rm -rf $WT; git -C /repo worktree prune
 git -C /repo worktree add -q --detach $WT $BASE || exit 2
 cp /repo/src/gbigsmiles/_version.py $WT/src/gbigsmiles/
